@@ -1,6 +1,7 @@
 package props
 
 import (
+	"sort"
 	"fmt"
 	"strconv"
 	"strings"
@@ -298,6 +299,57 @@ func checkC10(c *Ctx) {
 	c.Ev.Rule = "every pair validated on a fresh parse twice, the same document object re-validated, and the same requests replayed through independent fresh process pools (different hash seeds / map orders), byte-for-byte equality of the serialised error lists; plus the validator/model correspondence. Pairs: generated valid / faulty / blind documents, schemas whose type names are pairwise equidistant from a misspelt name, imported cases and their mutations."
 }
 
+// rulePairOrders: for every ordered pair (A, B) of the default rules and every crafted document, the
+// errors of [A, B] and of [B, A] are the same multiset, and equal to the errors of [A] plus those of [B]
+// (a rule that writes something another rule reads makes the list order, or the company, matter).
+func (c *Ctx) rulePairOrders(sdl string, docs []string) {
+	names := impl.DefaultRuleNames
+	hs := impl.HexW([]byte(sdl))
+	split := func(o string) []string {
+		if o == "OK" {
+			return nil
+		}
+		x := strings.Split(o, ";")
+		sort.Strings(x)
+		return x
+	}
+	for _, d := range docs {
+		hd := impl.HexW([]byte(d))
+		var reqs []string
+		for _, a := range names {
+			reqs = append(reqs, "validate "+a+" "+hs+" "+hd)
+		}
+		alone := c.Worker.Map(reqs)
+		idx := map[string]int{}
+		for i, a := range names {
+			idx[a] = i
+		}
+		reqs = reqs[:0]
+		type pr struct{ a, b string }
+		var prs []pr
+		for _, a := range names {
+			for _, b := range names {
+				if a != b {
+					reqs = append(reqs, "validate "+a+","+b+" "+hs+" "+hd)
+					prs = append(prs, pr{a, b})
+				}
+			}
+		}
+		out := c.Worker.Map(reqs)
+		for i, p := range prs {
+			c.Ev.Case("pair:"+p.a+","+p.b+clip(out[i], 30), out[i] != "OK")
+			want := append(split(alone[idx[p.a]]), split(alone[idx[p.b]])...)
+			sort.Strings(want)
+			got := split(out[i])
+			if strings.Join(got, ";") != strings.Join(want, ";") && !strings.HasPrefix(out[i], "PANIC") {
+				c.Report("spec", "rule-pair-not-the-union-of-its-members", fmt.Sprintf("document %q: the rule list [%s, %s] reports %s; %s alone reports %s and %s alone %s", d, p.a, p.b, clip(describeValObs(out[i]), 300), p.a, clip(describeValObs(alone[idx[p.a]]), 200), p.b, clip(describeValObs(alone[idx[p.b]]), 200)),
+					map[string]any{"op": "validate", "request": reqs[i], "schema": sdl, "document": d})
+				break
+			}
+		}
+	}
+}
+
 func checkC18(c *Ctx) {
 	c.validateSuite(c.Pick(30000, 300000))
 	pairs := c.genPairs(c.Pick(120, 1200), 30)
@@ -315,7 +367,24 @@ func checkC18(c *Ctx) {
 		pairs = append(pairs, [2]string{"type Query { a: Int b(x: Int!): Int }", sb.String()})
 		pairs = append(pairs, [2]string{gen.GenSchema(c.R, 5).SDL(), sb.String()})
 	}
+	// documents in which one rule's subject is another rule's input: a variable with a default in a non-null
+	// position next to the same argument omitted / null, duplicate definitions of everything, variables used only
+	// in directives or nested values
+	crossSchema := "enum E { A B }\ninput In { lo: Int! e: E! = A }\ntype Query { f(a: Int!, e: E! = A): Int g(in: In!): Int h(x: Int): Int }"
+	crossDocs := []string{
+		"query($v: Int = 1) { x: f(a: $v) y: f z: f(a: null) }",
+		"query($e: E = B, $n: Int = 2) { f(a: $n, e: $e) w: f(a: 1, e: null) g(in: {lo: $n}) u: g(in: {}) }",
+		"query Q($a: Int, $a: Int) { h(x: $a) }",
+		"query Q($a: Int, $a: Int, $b: Int) { h(x: 1) @skip(if: $b) }",
+		"query Q($a: Int) { ...F ...F } fragment F on Query { h(x: $a) } fragment F on Query { h } query Q { h }",
+		"query($a: Int = 1, $b: [Int] = [1]) { h(x: [$a]) k: g(in: {lo: $a, zz: $b}) }",
+		"{ h @skip(if: true) @skip(if: false) h @nope } { h }",
+	}
+	for _, d := range crossDocs {
+		pairs = append(pairs, [2]string{crossSchema, d})
+	}
 	c.valPropsSweep(pairs, isC18Sig)
+	c.rulePairOrders(crossSchema, crossDocs)
 	c.Ev.Rule = "per pair, on the real validator: default rule set = explicit list of the 27 specified rules; each rule alone reports exactly its share of the full run (multiset of rule/message/locations), every error tagged with its rule; the four …WithoutSuggestions variants report the same errors with the ' Did you mean' suffix removed; plus validator vs Lean model on random rule subsets and orders."
 }
 
